@@ -62,7 +62,7 @@ def executions_of(trace_file):
         yield cur
 
 
-def explore_scenario(exe, scenario, mode_args, trace_module, workdir, tag, max_rej=2):
+def explore_scenario(exe, scenario, mode_args, trace_module, workdir, tag, max_rej=2, trace_env=None):
     """Explore one scenario on the real code and validate all its executions. Returns dict."""
     out = os.path.join(workdir, tag + ".ndjson")
     rc, err, stats = run_runner(exe, out, scenario, mode_args)
@@ -72,7 +72,7 @@ def explore_scenario(exe, scenario, mode_args, trace_module, workdir, tag, max_r
     cur = out
     sample = None
     while True:
-        ok, line_no, nevents, res = se.validate_trace(trace_module, cur, workdir, tag)
+        ok, line_no, nevents, res = se.validate_trace(trace_module, cur, workdir, tag, trace_env=trace_env)
         if ok:
             nev += nevents
             break
@@ -124,13 +124,13 @@ def explore_scenario(exe, scenario, mode_args, trace_module, workdir, tag, max_r
             "sample": sample, "rc": rc, "distinct_nontrivial": len(distinct)}
 
 
-def confirm(exe, rej, trace_module, workdir):
+def confirm(exe, rej, trace_module, workdir, trace_env=None):
     """Replay the schedule of a rejected execution alone; reported only if it repeats."""
     if rej.get("schedule") is None:
         return True
     out = os.path.join(workdir, "confirm.ndjson")
     rc, err, _ = run_runner(exe, out, rej["scenario"], ["replay"] + rej["schedule"])
-    ok, line_no, nevents, res = se.validate_trace(trace_module, out, workdir, "confirm")
+    ok, line_no, nevents, res = se.validate_trace(trace_module, out, workdir, "confirm", trace_env=trace_env)
     if not ok:
         rej["execution"] = [l.rstrip("\n") for l in open(out) if l.strip()]
         rej["trace_line"] = line_no
@@ -201,9 +201,9 @@ def run_conc(pid, tier, seed, plan):
             ris = [] if sc.get("extra_only") else [sc.get("runner", i % nprimary)]
             ops = set(op for th in sc["scenario"].split(":")[-1].split("|") for op in th.split(","))
             kinds = set(op[0] for op in ops if op)
-            if sc.get("extra_only") or i % plan.get("extra_every", 1) == 0:
-                ris += [k for k in range(nprimary, len(exes))
-                        if not (ops & set(runners[k].get("lacks", ()))) and not (kinds & set(runners[k].get("lacks_kinds", ())))]
+            ris += [k for k in range(nprimary, len(exes))
+                    if (sc.get("extra_only") or i % runners[k].get("every", plan.get("extra_every", 1)) == 0)
+                    and not (ops & set(runners[k].get("lacks", ()))) and not (kinds & set(runners[k].get("lacks_kinds", ())))]
             for ri in ris:
                 if sc.get("dfs", True):
                     bound = sc.get("bound", 2 if nthreads <= 2 else 1) + (0 if quick else 1)
@@ -227,7 +227,7 @@ def run_conc(pid, tier, seed, plan):
                     tasks.append((sc["scenario"], ["stress", seed * 100 + i, sc.get("count", 150 if quick else 3000)], "x%02d-%d" % (i, j), base + j))
 
         def work(t):
-            r = explore_scenario(exes[t[3]], t[0], t[1], runners[t[3]].get("trace_module", plan["trace_module"]), wd, t[2])
+            r = explore_scenario(exes[t[3]], t[0], t[1], runners[t[3]].get("trace_module", plan["trace_module"]), wd, t[2], trace_env=runners[t[3]].get("trace_env"))
             r["runner"] = t[3]
             for x in r["rejections"]:
                 x["runner"] = t[3]
@@ -244,7 +244,7 @@ def run_conc(pid, tier, seed, plan):
         violations = 0
         seen = set()
         for r in rejections[:4]:
-            if not confirm(exes[r.get("runner", 0)], r, plan["trace_module"], wd):
+            if not confirm(exes[r.get("runner", 0)], r, runners[r.get("runner", 0)].get("trace_module", plan["trace_module"]), wd, trace_env=runners[r.get("runner", 0)].get("trace_env")):
                 raise MachineryError("rejection did not repeat on replay: %s %s" % (r["scenario"], r["schedule"]))
             import hashlib
             ln = r.get("trace_line") or 0
@@ -286,7 +286,7 @@ def replay_conc(r, path):
     try:
         exe = build(r["runner"]["source"], defines=r["runner"].get("defines", ()), sanitize=r["runner"].get("sanitize", True), name=r["runner"]["name"])
         rej = {"scenario": r["scenario"], "schedule": r["schedule"]}
-        again = confirm(exe, rej, r["trace_module"], wd)
+        again = confirm(exe, rej, r["runner"].get("trace_module", r["trace_module"]), wd, trace_env=r["runner"].get("trace_env"))
         if again:
             ex = rej.get("execution", [])
             ln = rej.get("trace_line", 0)
